@@ -14,7 +14,7 @@ if not ok:
     sys.exit(1)
 os.makedirs(dst, exist_ok=True)
 for f in ('patch.diff', 'demo.py', 'notes.md'):
-    if os.path.exists(os.path.join(mdir, f)):
+    if os.path.exists(os.path.join(mdir, f)) and os.path.realpath(mdir) != os.path.realpath(dst):
         shutil.copy(os.path.join(mdir, f), os.path.join(dst, f))
 notes = open(os.path.join(mdir, 'notes.md')).read() if os.path.exists(os.path.join(mdir, 'notes.md')) else ''
 meta_p = os.path.join(dst, 'meta.json')
